@@ -80,8 +80,12 @@ class SemiSeekableBuffer:
 
     @property
     def remaining(self) -> int:
-        """Return remaining bytes in buffer."""
-        return self._buffer_size - self.size
+        """Return remaining room in buffer, i.e. how many bytes add will accept.
+
+        Retained headroom data occupies space in the buffer even after it has been
+        read, so this is based on stored data and not on unread data (size).
+        """
+        return self._buffer_size - len(self._buffer)
 
     @property
     def position(self) -> int:
